@@ -9,7 +9,8 @@ TLC : the property configuration (both deviations of the pinned code off) must s
 bind: each scenario is played over loopback against the real tcp.Server + Proxy / SNIProxy /
       DynamicProxy (harness/proxy/tcp/c09_test.go) and the real HTTPProxy websocket path
       (harness/proxy/c09ws_test.go) by scripted endpoints ordered by causality only"""
-import json, os, random
+import json, os, random, threading, time
+from concurrent.futures import ThreadPoolExecutor
 from lib import vf
 
 CFG = """SPECIFICATION Spec
@@ -49,6 +50,20 @@ def cfg(eof=False, raw=False, drop=False, abort=False, reset=False, maxc=2, maxu
     return CFG % dict(eof=tf(eof), raw=tf(raw), drop=tf(drop), abort=tf(abort), reset=tf(reset), maxc=maxc, maxu=maxu,
                       kinds=kinds, inv=PROPS + (" GenOut" if gen else ""),
                       dl="" if deadlock else "CHECK_DEADLOCK FALSE")
+
+
+_start = threading.Lock()
+
+
+def tlc_bg(ctx, ex, *a, **kw):
+    """ctx.tlc in a pool thread; calls are started one after the other so that each gets its own scratch directory"""
+    with _start:
+        d = os.path.join(ctx.tmp, "tlc%d" % (ctx._tlc_n + 1))
+        f = ex.submit(ctx.tlc, *a, **kw)
+        t0 = time.time()
+        while not os.path.isdir(d) and not f.done() and time.time() - t0 < 20:
+            time.sleep(0.01)
+    return f
 
 
 def go_copy(ctx, cases, what, timeout=300):
@@ -138,10 +153,19 @@ def run(ctx):
         "bytes pipelined behind the upgrade request and a 101 response split into pieces shorter than its status line are outside the statement ('once a connection is tunnelled')",
         "interleaving of the real run is the scheduler's; only causal order is enforced (never sleeping); a scenario exceeding 10 s is inconclusive",
     ]
+    # 2 (started first, collected below). each named deviation, alone, must be caught by TLC
+    devs = (("CopyFromRawConn", dict(raw=True, kinds='{"sni"}', deadlock=False, maxc=1, maxu=1)),
+            ("EndOnFirstEOF", dict(eof=True, maxc=1, maxu=1)),
+            ("DropDataWithEOF", dict(drop=True, kinds='{"tcp"}', deadlock=False, maxc=1, maxu=1)),
+            ("AbortOnError", dict(abort=True, kinds='{"tcp"}', deadlock=False, maxc=1, maxu=2)),
+            ("ResetOnError", dict(reset=True, kinds='{"tcp"}', deadlock=False, maxc=1, maxu=2)))
+    ex = ThreadPoolExecutor(max_workers=2)
+    futs = [(name, tlc_bg(ctx, ex, "Tunnel_MC", cfg_text=cfg(**kw), workers=2, timeout=300)) for name, kw in devs]
+
     # 1. the design satisfies the property on every scenario and interleaving; terminal states = expected streams
     sink = os.path.join(ctx.tmp, "c09.gen")
-    mc = ctx.tlc("Tunnel_MC", cfg_text=cfg(maxc=maxc, maxu=maxu, gen=True), workers=8, json_sink=sink,
-                 timeout=ctx.pick(240, 1500), heap=ctx.pick(None, "6g"))
+    mc = tlc_bg(ctx, ex2 := ThreadPoolExecutor(max_workers=1), "Tunnel_MC", cfg_text=cfg(maxc=maxc, maxu=maxu, gen=True), workers=6, json_sink=sink,
+                timeout=ctx.pick(240, 1500), heap=ctx.pick(None, "6g")).result()
     ctx.log("Tunnel property configuration: %d generated, %d distinct, depth %d, %.0fs" % (mc.generated, mc.distinct, mc.depth, mc.wall))
     if not ctx.need_tlc_ok(mc, "Tunnel (property configuration)"):
         return
@@ -159,15 +183,7 @@ def run(ctx):
         ctx.log("coverage: all %d actions taken" % len(ACTIONS))
     # 2. each named deviation (the two of the pinned code, three defect classes), alone, is caught by TLC
     anyprop = tuple(PROPS.split())
-    devs = (("CopyFromRawConn", dict(raw=True, kinds='{"sni"}', deadlock=False, maxc=1, maxu=1)),
-            ("EndOnFirstEOF", dict(eof=True, maxc=1, maxu=1)),
-            ("DropDataWithEOF", dict(drop=True, kinds='{"tcp"}', deadlock=False, maxc=1, maxu=1)),
-            ("AbortOnError", dict(abort=True, kinds='{"tcp"}', deadlock=False, maxc=1, maxu=2)),
-            ("ResetOnError", dict(reset=True, kinds='{"tcp"}', deadlock=False, maxc=1, maxu=2)))
-    from concurrent.futures import ThreadPoolExecutor
-    with ThreadPoolExecutor(max_workers=3) as ex:
-        futs = [(name, ex.submit(ctx.tlc, "Tunnel_MC", cfg_text=cfg(**kw), workers=2, timeout=300)) for name, kw in devs]
-        results = [(name, f.result()) for name, f in futs]
+    results = [(name, f.result()) for name, f in futs]
     for name, d in results:
         if d.timed_out or d.error:
             ctx.need_tlc_ok(d, "Tunnel (%s)" % name)
